@@ -31,7 +31,9 @@ def worlds(chk, quick_names=None, n_random=0, max_n=3, max_bits=6):
     for nm in names:
         out.append((nm, gen.CURATED[nm]))
     for i in range(n_random):
-        out.append(("R%d" % i, gen.random_network(chk.rng, max_n=max_n, max_bits=max_bits)))
+        net = gen.random_network(chk.rng, max_n=max_n, max_bits=max_bits)
+        if net_props(net):
+            out.append(("R%d" % i, net))
     return out
 
 
@@ -90,6 +92,14 @@ def gen_C01(chk):
                 k = d
             mode = rng.choice(["s", "s", "", "ts", "t"])
             chk.add_eval(net, k, mode, [f], tag="rnd", netname=nm)
+        # formulae whose sub-formulae repeat up to renaming, with one and with two variables
+        for j in range(8 if thorough(chk) else 3):
+            f = swapped_batch(rng, props, False)[0]
+            chk.add_eval(net, 2, "s", [f], tag="swapped", netname=nm)
+            fs = nested_batch(rng, props, False)
+            if fs:
+                g = fs[-1]
+                chk.add_eval(net, gen.quant_depth(g), "s", [g], tag="nested", netname=nm)
     if thorough(chk):
         # all closed formulae with two operators on the smallest worlds
         for nm in ["N02", "N04", "N07", "N21"]:
@@ -222,15 +232,124 @@ def planted_batch(rng, props, ext):
     return fs
 
 
+def plug_context(rng, props, core, core_var, ext, depth=None):
+    """A random formula containing `core` under a random prefix of operators and quantifiers
+    (some with domains); if the core has a free variable it is renamed to a variable in scope
+    at the hole (a binder is added when none is)."""
+    depth = rng.randint(1, 4) if depth is None else depth
+    scope = []
+    frames = []
+    for _ in range(depth):
+        r = rng.random()
+        if r < 0.5 and len(scope) < 3:
+            x = gen.var_name(len(scope))
+            d = "d" if ext and rng.random() < 0.5 else None
+            frames.append(("Q", rng.choice(gen.QUANTS), x, d))
+            scope.append(x)
+        elif r < 0.6 and scope:
+            frames.append(("J", rng.choice(scope)))
+        elif r < 0.8:
+            frames.append(("U", rng.choice(["Not", "EX", "EF", "AG", "AX"])))
+        else:
+            other = gen.random_formula(rng, rng.randint(0, 2), props, scope=list(scope), max_vars=len(scope))
+            frames.append(("B", rng.choice(["And", "Or", "EU"]), other, rng.random() < 0.5))
+    if core_var is not None:
+        if not scope:
+            frames.insert(0, ("Q", rng.choice(gen.QUANTS), "x", ("d" if ext and rng.random() < 0.5 else None)))
+            scope.append("x")
+        target = rng.choice(scope)
+        body = gen.alpha_rename(("H", "Bind", core_var, None, core), rng, [target])[4] if target != core_var else core
+        # alpha_rename picks from the pool [target]: the binder's name becomes target
+    else:
+        body = core
+    t = body
+    for fr in reversed(frames):
+        if fr[0] == "Q":
+            t = ("H", fr[1], fr[2], fr[3], t)
+        elif fr[0] == "J":
+            t = ("H", "Jump", fr[1], None, t)
+        elif fr[0] == "U":
+            t = ("U", fr[1], t)
+        else:
+            t = ("B", fr[1], fr[2], t) if fr[3] else ("B", fr[1], t, fr[2])
+    return t
+
+
+def nested_batch(rng, props, ext):
+    """duplicates (closed or with one free variable) planted under random nestings of
+    restricted and unrestricted quantifiers, and outside of them"""
+    if rng.random() < 0.5:
+        core = gen.random_formula(rng, rng.randint(1, 3), props, max_vars=1)
+        core_var = None
+        while core[0] == "T":
+            core = gen.random_formula(rng, rng.randint(1, 3), props, max_vars=1)
+    else:
+        core = gen.random_formula(rng, rng.randint(1, 3), props, scope=["q"], max_vars=1)
+        core_var = "q" if "q" in gen.free_vars(core) else None
+        if core[0] == "T":
+            core = ("U", "EF", core)
+    fs = []
+    for _ in range(rng.randint(2, 4)):
+        f = plug_context(rng, props, core, core_var, ext)
+        if gen.free_vars(f) or core_requantified(f):
+            continue
+        fs.append(f)
+    if core_var is None:
+        fs.insert(rng.randint(0, len(fs)), core if rng.random() < 0.5 else ("B", "And", core, gen.T("P", props[0])))
+    if len(fs) >= 2 and rng.random() < 0.5:
+        fs.append(("B", rng.choice(["And", "Or"]), fs[0], fs[1]))
+    return fs
+
+
+def core_requantified(f):
+    from .core import requantifies
+    return requantifies(f)
+
+
+def subst_vars(t, m):
+    if t[0] == "T":
+        return ("T", "V", m.get(t[2], t[2])) if t[1] == "V" else t
+    if t[0] == "U":
+        return ("U", t[1], subst_vars(t[2], m))
+    if t[0] == "B":
+        return ("B", t[1], subst_vars(t[2], m), subst_vars(t[3], m))
+    if t[1] == "Jump":
+        return ("H", "Jump", m.get(t[2], t[2]), None, subst_vars(t[4], m))
+    return ("H", t[1], t[2], t[3], subst_vars(t[4], m))
+
+
+def swapped_batch(rng, props, ext):
+    """sub-formulae with two free variables occurring with the variables in swapped roles"""
+    for _ in range(20):
+        core = gen.random_formula(rng, rng.randint(1, 4), props, scope=["p", "q"], max_vars=2, w_hybrid=0.2)
+        if gen.free_vars(core) == {"p", "q"}:
+            break
+    else:
+        core = ("U", "EF", ("B", "And", gen.T("V", "p"), ("U", "EX", gen.T("V", "q"))))
+    a = subst_vars(core, {"p": "x", "q": "y"})
+    b = subst_vars(core, {"p": "y", "q": "x"})
+    q1, q2 = rng.choice(gen.QUANTS), rng.choice(gen.QUANTS)
+    d = "d" if ext and rng.random() < 0.4 else None
+    body = ("B", rng.choice(["And", "Or", "Imp"]), a, b)
+    if rng.random() < 0.5:
+        body = ("B", "And", ("H", "Jump", "x", None, ("U", "Not", gen.T("V", "y"))), body)
+    f = ("H", q1, "x", d, ("H", q2, "y", None, body))
+    g = ("H", q2, "x", None, ("H", q1, "y", None, a))
+    return [f, g] if rng.random() < 0.5 else [f]
+
+
 def gen_C04(chk):
     rng = chk.rng
     ws = worlds(chk, quick_names=["N02", "N05", "N06", "N07", "N09", "N16", "N21", "N22"],
                 n_random=(20 if thorough(chk) else 5))
     for nm, net in ws:
         props = net_props(net)
-        for j in range(24 if thorough(chk) else 7):
+        for j in range(36 if thorough(chk) else 12):
             ext = rng.random() < 0.6
-            fs = planted_batch(rng, props, ext)
+            fs = [planted_batch, nested_batch, swapped_batch][j % 3](rng, props, ext)
+            if len(fs) < 1:
+                continue
+            fs = fs[:4]
             k = max(gen.quant_depth(f) for f in fs)
             ctx = [("p", ctx_spec(rng)), ("d", ctx_spec(rng))] if ext else []
             mode = ("e" if ext else "") + "s"
